@@ -64,7 +64,9 @@ type DBOpts struct {
 	U Universe
 	// Shape: "dense" (every series has every label), "sparse" (random label subsets),
 	// "single" (one series per metric, random subset), "shared" (all metrics share the same sparse label sets),
-	// "one" (every metric has exactly one series and all of them carry the same label set - every join matches);
+	// "one" (every metric has exactly one series and all of them carry the same label set - every join matches),
+	// "all" (never drawn: every metric has one series per combination of values "1"/"2" of the first three labels,
+	// further labels are "1" - any matcher with a non-empty value selects something);
 	// "" = drawn.
 	Shape string
 	// FullLabels forces every series to carry every universe label with a non-empty value (C12's domain).
@@ -124,6 +126,18 @@ func GenDB(t *rapid.T, label string, o DBOpts) DB {
 	for mi, m := range o.U.Metrics {
 		l := fmt.Sprintf("m%d", mi)
 		switch shape {
+		case "all":
+			k := min(3, len(o.U.Labels))
+			for combo := 0; combo < 1<<k; combo++ {
+				ls := map[string]string{}
+				for i, name := range o.U.Labels {
+					ls[name] = "1"
+					if i < k && combo&(1<<i) != 0 {
+						ls[name] = "2"
+					}
+				}
+				add(m, ls, fmt.Sprintf("%s.c%d", l, combo))
+			}
 		case "single":
 			add(m, genSet(l+".own"), l)
 		case "one":
